@@ -7,7 +7,7 @@ pub fn find_next_line_break_pos(
     let mut cursor = byte_pos;
 
     loop {
-        if cursor >= bytes.len() || cursor == 0 {
+        if cursor >= bytes.len() {
             break None;
         }
 
@@ -40,7 +40,7 @@ pub fn find_prev_line_break_pos(
     loop {
         cursor -= 1;
 
-        if cursor >= bytes.len() || cursor == 0 {
+        if cursor >= bytes.len() {
             break None;
         }
 
@@ -52,6 +52,10 @@ pub fn find_prev_line_break_pos(
                     break None;
                 }
             }
+        }
+
+        if cursor == 0 {
+            break None;
         }
     }
 }
